@@ -91,8 +91,8 @@ Proof.
   unfold porttype_ok. apply forallb_ext. intro o. rewrite !message_parts_ext. reflexivity.
 Qed.
 
-Lemma link_op_ext ptops n : link_op tns unwrap eb ch ptops n = link_op tns unwrap eb ch' ptops n.
-Proof. unfold link_op. destruct (find_ptop n ptops); [|reflexivity]. rewrite !message_parts_ext. reflexivity. Qed.
+Lemma link_op_ext ptops b : link_op tns unwrap eb ch ptops b = link_op tns unwrap eb ch' ptops b.
+Proof. unfold link_op. destruct (find_ptop (bo_name b) ptops); [|reflexivity]. rewrite !message_parts_ext. reflexivity. Qed.
 
 Lemma link_binding_ext ty ops : link_binding tns unwrap eb ch ty ops = link_binding tns unwrap eb ch' ty ops.
 Proof.
@@ -202,4 +202,27 @@ Proof.
       * split; [discriminate|]. intros [_ (p0 & q0 & E & E1 & E2)]. inversion E; subst. congruence.
     + split; [discriminate|]. intros [_ (p0 & q0 & E & E1 & _)]. inversion E; subst. congruence.
   - split; [discriminate|]. intros [H _]. discriminate.
+Qed.
+
+(* a parts= list that names every part of the message selects what no list selects:
+   the WSDL with and without it link the same operation *)
+Lemma select_all_parts_l : forall l parts,
+  (forall p, In p parts -> existsb (N.eqb (pt_name p)) l = true) ->
+  select_parts (Some l) parts = parts.
+Proof.
+  intros l parts H. unfold select_parts. destruct l as [|x l]; [reflexivity|].
+  induction parts as [|p parts IH]; [reflexivity|]. cbn [filter].
+  rewrite (H p (or_introl eq_refl)). f_equal. apply IH. intros q Hq. apply H. right. exact Hq.
+Qed.
+
+Lemma body_parts_naming_all_is_default_l : forall tns unwrap eb ch ptops n li lo o mi mo,
+  find_ptop n ptops = Some o ->
+  message_parts tns ch (po_in o) = Some mi -> message_parts tns ch (po_out o) = Some mo ->
+  (forall p, In p mi -> existsb (N.eqb (pt_name p)) li = true) ->
+  (forall p, In p mo -> existsb (N.eqb (pt_name p)) lo = true) ->
+  link_op tns unwrap eb ch ptops (mkBOp n (Some li) (Some lo)) =
+  link_op tns unwrap eb ch ptops (mkBOp n None None).
+Proof.
+  intros tns unwrap eb ch ptops n li lo o mi mo Hf Hi Ho Ai Ao. unfold link_op. cbn [bo_name bo_in bo_out].
+  rewrite Hf, Hi, Ho, (select_all_parts_l li mi Ai), (select_all_parts_l lo mo Ao). reflexivity.
 Qed.
